@@ -101,6 +101,8 @@ def specs(r):
         return aio_specs(r)
     out, scn = r["obs"][0], r["scn"]
     qs = []
+    if out.get("uncontrollable"):
+        return qs
     if out.get("deadlock"):
         qs.append(("spec eq 0 1", {"what": "deadlock", "waits": out["deadlock"], "n_threads": scn.get("n_threads")}))
         return qs
